@@ -14,10 +14,10 @@ PROP = "C14"
 LEVEL = "model_checking"
 RULE = (
     "X-SEQ on the real daemon code (mod_daemon.main / process_input) with an instrumented stdin and captured reply stream: every "
-    "sequence of input lines of length <= 3 (quick) / <= 4 (thorough) over an alphabet of 16 line classes (valid request; valid with "
+    "sequence of input lines of length <= 3 (quick) / <= 4 (thorough) over an alphabet of 17 line classes (valid request; valid with "
     "CRLF and extra keys; valid multi-module; invalid base64; base64 of non-UTF-8 bytes; base64 of non-JSON; JSON array; JSON "
     "scalar/null; unknown action; missing code; code of the wrong type; unknown option name / options null; source that drives the "
-    "compiler into its internal-error path; source with a syntax error; blank line; EXIT) is fed to a fresh run of main(); the "
+    "compiler into its internal-error path; source with a syntax error; well-formed requests whose echoed fields carry a lone surrogate; blank line; EXIT) is fed to a fresh run of main(); the "
     "instrumented stdin observes the reply stream before every readline, so the invariant is evaluated after EVERY step: the reply "
     "stream gained exactly one line iff the previous line was non-blank and the daemon had not exited; each reply is base64 of a "
     "JSON object; a valid request's reply carries the constant that was planted in that request (order); error classes answer with "
@@ -65,6 +65,13 @@ def make_line(cls, k):
         return b64({"action": "compile", "code": {"": f"db.Setting = 1e999 + {const}\n"}, "options": {}})
     if cls == "syntax-error":
         return b64({"action": "compile", "code": {"": f"db.Setting = = {const}\n"}, "options": {}})
+    if cls == "echo-surrogate":
+        # well-formed ASCII JSON whose echoed fields contain a lone surrogate / odd unicode (the reply has to carry it)
+        if k % 3 == 0:
+            return b64({"action": "\ud800"})
+        if k % 3 == 1:
+            return b64({"action": "compile", "code": {"": src}, "options": {"\udc00": True}})
+        return b64({"action": "compile", "code": {"": "db.Setting = '\ud83d' + \u00e9\n"}, "options": {}})
     if cls == "blank":
         return "" if k % 2 else "   \t"
     if cls == "constexpr-prints":
@@ -74,7 +81,7 @@ def make_line(cls, k):
     raise KeyError(cls)
 
 
-ALPHABET = ["valid", "valid-crlf-extra", "valid-modules", "bad-base64", "non-utf8", "non-json", "json-array", "json-scalar", "unknown-action", "missing-code", "code-wrong-type", "bad-options", "internal-error", "syntax-error", "blank", "EXIT"]
+ALPHABET = ["valid", "valid-crlf-extra", "valid-modules", "bad-base64", "non-utf8", "non-json", "json-array", "json-scalar", "unknown-action", "missing-code", "code-wrong-type", "bad-options", "internal-error", "syntax-error", "echo-surrogate", "blank", "EXIT"]
 VALID = {"valid", "valid-crlf-extra", "valid-modules"}
 COMPILES = VALID | {"internal-error", "syntax-error", "constexpr-prints"}
 
